@@ -91,7 +91,7 @@ Apply(x, e) ==
                                  THEN {EnvHandshakeChunk(x, e.a.res, e.a.ms)} ELSE {}
     [] e.c = "EnvChunk"       -> IF CanReceive(x) THEN {EnvChunk(x, e.a.ms)} ELSE {}
     [] e.c = "EnvEof"         -> IF x.tr = "open" /\ ~x.cm THEN {EnvEof(x)} ELSE {}
-    [] e.c = "EnvReset"       -> IF x.tr = "open" /\ ~x.cm THEN {EnvReset(x)} ELSE {}
+    [] e.c = "EnvReset"       -> IF x.tr = "open" /\ ~x.cm THEN {EnvReset(x, e.a.f)} ELSE {}
     [] e.c = "EnvJunk"        -> IF x.tr = "open" /\ ~x.cm /\ ~x.cfg.noise THEN {EnvJunk(x, e.a.cls)} ELSE {}
     [] e.c = "UserDisconnect" -> IF x.di.out = "idle" THEN {UserDisconnect(x)} ELSE {}
     [] e.c = "UserForce"      -> {UserForce(x)}
